@@ -338,6 +338,71 @@ Definition commit_txs (e : env) (b : bstate) (txs : list msg) : bstate :=
 Definition commit_block (e : env) (s : state) (txs : list msg) : bstate :=
   commit_txs e (block_start e s) txs.
 
+(** ** proposalBlock.commitTransaction (block_constructor.go), the loop body of the proposal
+    builder used by CreateProposalBlock once Galaxias is active (after fix e9e909b):
+
+      snap := pb.state.Snapshot(); gasBefore := pb.gasPool.Gas()
+      receipt, _, err := ApplyTransaction(..., pb.gasPool, pb.state, pb.header, tx, pb.usedGas, ...)
+      if err != nil { pb.state.RevertToSnapshot(snap); *pb.gasPool = types.GasPool(gasBefore); return err }
+      pb.txs = append(pb.txs, tx); pb.receipts = append(pb.receipts, receipt)
+
+    [pool_before] is what the pool is reset to on error (transcribed separately from
+    [commit_step]; C09_proposal_builder proves that they coincide). *)
+Definition propose_step (e : env) (b : bstate) (m : msg) : bstate :=
+  if b_panic b then b else
+  let pool_before := b_pool b in
+  match apply_transaction e (b_state b) (b_pool b) m with
+  | Rejected _ _ _ =>
+    {| b_state := b_state b; b_pool := pool_before; b_cum := b_cum b;
+       b_receipts := b_receipts b; b_panic := false |}
+  | Executed s' pool' r =>
+    let cum := W (b_cum b + x_used r) in
+    {| b_state := s'; b_pool := pool'; b_cum := cum;
+       b_receipts := (m_id m, cum, r) :: b_receipts b; b_panic := false |}
+  | Panicked =>
+    {| b_state := b_state b; b_pool := b_pool b; b_cum := b_cum b;
+       b_receipts := b_receipts b; b_panic := true |}
+  end.
+
+Definition propose_txs (e : env) (b : bstate) (txs : list msg) : bstate :=
+  fold_left (propose_step e) txs b.
+
+(** proposalBlock.commitTransactions: the loop leaves as soon as the pool holds less than TxGas
+    ("Not enough gas for further transactions"); [txs] is the sequence of transactions the loop
+    hands to commitTransaction (the price-and-nonce heap and its Shift / Pop are not modelled) *)
+Fixpoint propose_loop (e : env) (b : bstate) (txs : list msg) : bstate :=
+  match txs with
+  | [] => b
+  | m :: rest =>
+    if b_pool b <? tx_gas then b
+    else propose_loop e (propose_step e b m) rest
+  end.
+
+(** ** StateProcessor.Process: the same ApplyTransaction calls on one pool, but the first error
+    aborts the whole block ([None]: "return nil, nil, 0, err"). *)
+Definition process_step (e : env) (ob : option bstate) (m : msg) : option bstate :=
+  match ob with
+  | None => None
+  | Some b =>
+    if b_panic b then Some b else
+    match apply_transaction e (b_state b) (b_pool b) m with
+    | Rejected _ _ _ => None
+    | Executed s' pool' r =>
+      let cum := W (b_cum b + x_used r) in
+      Some {| b_state := s'; b_pool := pool'; b_cum := cum;
+              b_receipts := (m_id m, cum, r) :: b_receipts b; b_panic := false |}
+    | Panicked =>
+      Some {| b_state := b_state b; b_pool := b_pool b; b_cum := b_cum b;
+              b_receipts := b_receipts b; b_panic := true |}
+    end
+  end.
+
+Definition process_txs (e : env) (ob : option bstate) (txs : list msg) : option bstate :=
+  fold_left (process_step e) txs ob.
+
+Definition process_block (e : env) (s : state) (txs : list msg) : option bstate :=
+  process_txs e (Some (block_start e s)) txs.
+
 End Model.
 
 (** The code as it is: uint64 arithmetic wraps. *)
@@ -345,3 +410,5 @@ Definition apply_transaction64 := apply_transaction wrapu64.
 Definition commit_step64 := commit_step wrapu64.
 Definition commit_block64 := commit_block wrapu64.
 Definition intrinsic_gas64 := intrinsic_gas wrapu64.
+Definition propose_step64 := propose_step wrapu64.
+Definition process_block64 := process_block wrapu64.
